@@ -2,7 +2,7 @@
 from reg._common import COMMON_ASSUME
 
 ENTRY = {'extractors': ['translate_py.py', 'translate_f90.py'],
- 'lean_files': ['Tables/C16.lean', 'Tables/SrcPy.lean', 'Tables/SrcPyReal.lean', 'Tables/SrcF90.lean', 'Props/C16.lean', 'Props/C16Hull.lean', 'Props/C16More.lean'],
+ 'lean_files': ['Tables/SrcPyKernels.lean', 'Tables/C16.lean', 'Tables/SrcPy.lean', 'Tables/SrcPyReal.lean', 'Tables/SrcF90.lean', 'Props/C16.lean', 'Props/C16Hull.lean', 'Props/C16More.lean'],
  'lemma_files': ['Lemmas/HullCorrect.lean', 'Lemmas/HullConvex.lean', 'Lemmas/BoxLine.lean', 'Lemmas/ClipRange.lean', 'Lemmas/NormReal.lean', 'Lemmas/Predicates.lean',
                  'Lemmas/PredicatesHull.lean',
                  'Lemmas/Bridge.lean',
